@@ -705,6 +705,25 @@ def check_unresolvable_is_absent(ck, R3):
     if fnf:
         catching = {"FunctionNotFoundError", "Exception", "BaseException"} | {b.name for b in ck.repo.mro(fnf[0])[1:]} | set(fnf[0].base_exprs)
 
+    def passes_on(fa, h):
+        """Does some reachable `raise` in the handler (at any depth: under a condition, in a loop, in a `with`) leave it?  A raise
+        inside an inner try of the handler that catches everything stays inside."""
+        for st in h.body:
+            for r in A.walk_local(st):
+                if not isinstance(r, ast.Raise) or not fa.nodes(r):
+                    continue
+                n, kept = r, False
+                while n is not None and n is not h:
+                    p_ = fa.pm.get(n)
+                    if isinstance(p_, ast.Try) and any(n is b for b in p_.body) and \
+                            any(t is None or t in ("Exception", "BaseException") for h2 in p_.handlers for t in _handler_types(fa, h2)):
+                        kept = True
+                        break
+                    n = p_
+                if not kept:
+                    return True
+        return False
+
     def absorbed(fa, call):
         n = call
         while n is not None:
@@ -712,8 +731,8 @@ def check_unresolvable_is_absent(ck, R3):
             if isinstance(p_, ast.Try) and any(fa.inside(call, b) for b in p_.body):
                 for h in p_.handlers:
                     if any(t is None or t in catching for t in _handler_types(fa, h)):
-                        # (a handler that passes the exception on does not absorb it)
-                        return not any(isinstance(st, ast.Raise) for st in h.body)
+                        # (a handler that passes the exception on - on any of its paths - does not absorb it)
+                        return not passes_on(fa, h)
             n = p_
         return False
 
